@@ -169,8 +169,8 @@ ares_status_t ares_send_nolock(ares_channel_t *channel, ares_server_t *server,
     status = ares_apply_dns0x20(channel, query->query);
     if (status != ARES_SUCCESS) {
       /* LCOV_EXCL_START: OutOfMemory */
-      callback(arg, status, 0, NULL);
       ares_free_query(query);
+      callback(arg, status, 0, NULL);
       return status;
       /* LCOV_EXCL_STOP */
     }
@@ -198,8 +198,8 @@ ares_status_t ares_send_nolock(ares_channel_t *channel, ares_server_t *server,
   query->node_all_queries = ares_llist_insert_last(channel->all_queries, query);
   if (query->node_all_queries == NULL) {
     /* LCOV_EXCL_START: OutOfMemory */
-    callback(arg, ARES_ENOMEM, 0, NULL);
     ares_free_query(query);
+    callback(arg, ARES_ENOMEM, 0, NULL);
     return ARES_ENOMEM;
     /* LCOV_EXCL_STOP */
   }
@@ -209,8 +209,8 @@ ares_status_t ares_send_nolock(ares_channel_t *channel, ares_server_t *server,
    */
   if (!ares_htable_szvp_insert(channel->queries_by_qid, query->qid, query)) {
     /* LCOV_EXCL_START: OutOfMemory */
-    callback(arg, ARES_ENOMEM, 0, NULL);
     ares_free_query(query);
+    callback(arg, ARES_ENOMEM, 0, NULL);
     return ARES_ENOMEM;
     /* LCOV_EXCL_STOP */
   }
